@@ -6,6 +6,7 @@ import (
 	"fmt"
 	"io"
 	"sort"
+	"strconv"
 	"strings"
 	"sync"
 	"time"
@@ -327,6 +328,7 @@ func execOwn(args []string) string {
 		}
 	case "broadcaster": // own broadcaster <closeEarly>: shared frames are released exactly once, after Close and the last pending send
 		closeEarly := args[1] == "1"
+		closeTwice := len(args) > 3 && args[3] == "1" // Close is called again (an explicit call plus a deferred one): still one release
 		up := gws.NewUpgrader(newRecorder(), &gws.ServerOption{Logger: quietLogger{}, PermessageDeflate: ownPD(pd)})
 		type pair struct {
 			s  *gws.Conn
@@ -358,6 +360,9 @@ func execOwn(args []string) string {
 					_ = b.Broadcast(x.s)
 				}
 				_ = b.Close() // Close before any send has happened
+				if closeTwice {
+					_ = b.Close()
+				}
 				close(gate)
 			} else {
 				for _, x := range ps {
@@ -370,6 +375,16 @@ func execOwn(args []string) string {
 			}
 			for _, x := range ps {
 				drainAsync(x.s)
+			}
+			if closeTwice {
+				_ = b.Close()
+				// the released frames may be handed out again at once: whoever gets them must be their only owner
+				for _, x := range ps {
+					_ = x.s.WriteMessage(gws.OpcodeText, []byte("after-"+strconv.Itoa(round)))
+				}
+				want = append(want, "msg:1:"+hx(p))
+				want = append(want, "msg:1:"+hx([]byte("after-"+strconv.Itoa(round))))
+				continue
 			}
 			want = append(want, "msg:1:"+hx(p))
 		}
@@ -413,6 +428,7 @@ func genOwn(g *Gen) {
 	for _, early := range []string{"0", "1"} {
 		for _, pd := range []string{"0", "1"} {
 			g.Emit("own broadcaster %s %s", early, pd)
+			g.Emit("own broadcaster %s %s 1", early, pd)
 		}
 	}
 }
